@@ -13,9 +13,9 @@ EXPLANATION = (
     "digest(subject(e)) exactly under level < limit (ordering table over level <,=,> limit). C15.5: the predicate filter is "
     "eq(digest(as_predicate(subject(a))), digest(envelope(p))) over assertions(self); the single-result forms over "
     "len in {0,1,2} give {Nonexistent|None, first, Ambiguous}. C15.6: subject()/assertions() return the matched node's fields, "
-    "else self / empty; the case predicates is_<case>, is_subject_<case>, is_obscured and the accessors as_predicate/as_object/Assertion::predicate/object that all other rules treat as opaque have exactly their per-case tables. C15.7: query-family panic sites are in the C16 ledger. C15.2 also judges the level and parent the tree walk hands to each child kind, per valuation of `self is a node` (terms built with edge-sensitive reaching definitions); C15.4 also requires shallow_digests/deep_digests = digests(self, 2 / usize::MAX). C15.5 also: objects_for_predicate = the object of the subject of every matching assertion. C15.9: each generated TryFrom<Envelope> for T is try_into(try_leaf(envelope)?). Does not decide std collection semantics.")
+    "else self / empty; the case predicates is_<case>, is_subject_<case>, is_obscured and the accessors as_predicate/as_object/Assertion::predicate/object that all other rules treat as opaque have exactly their per-case tables. C15.7: query-family panic sites are in the C16 ledger. C15.2 also judges the level and parent the tree walk hands to each child kind, per valuation of `self is a node` (terms built with edge-sensitive reaching definitions); C15.4 also requires shallow_digests/deep_digests = digests(self, 2 / usize::MAX). C15.5 also: objects_for_predicate = the object of the subject of every matching assertion. C15.1/C15.2 also: no test of the level parameter can skip a recursive call. C15.9: each generated TryFrom<Envelope> for T is try_into(try_leaf(envelope)?). Does not decide std collection semantics.")
 TRUSTED = ['Vec::len/is_empty/index, Iterator::filter/collect have std semantics']
-FLOORS = {'C15.1': 7, 'C15.2': 11, 'C15.3': 6, 'C15.4': 4, 'C15.5': 5, 'C15.9': 1, 'C15.6': 2}
+FLOORS = {'C15.1': 8, 'C15.2': 12, 'C15.3': 6, 'C15.4': 4, 'C15.5': 5, 'C15.9': 1, 'C15.6': 2}
 P1, P2, P3, P4, P5 = [('param', i) for i in range(1, 6)]
 EDGE = {'Node.subject': 'Subject', 'Node.assertions': 'Assertion', 'Assertion.predicate': 'Predicate', 'Assertion.object': 'Object', 'Wrapped.envelope': 'Wrapped'}
 
@@ -190,6 +190,23 @@ def check(ctx):
             ctx.ok('C15.2', ctx.site(tw_, vb), 'tree walk visits an element iff it is not a node')
         else:
             ctx.fail('C15.2', ctx.site(tw_, vb), 'tree walk visitor reachable for node=%s, non-node=%s (expected False/True)' % (t_node, t_other), key='C15.2|table')
+    # ---- the descent is unconditional in depth: no test of the level parameter stands between the visit and the recursive calls (a depth
+    # limit makes the walk - and everything built on it: digests(), structural_digest(), tree_format - silently incomplete below it)
+    for inst_, wb_, wtb_, wsites_ in (('C15.1', sw_, tb, sites), ('C15.2', tw_, ttb, tsites)):
+        guards = []
+        for sb_, dt_ in switch_on(wtb_, wb_, lambda d: contains(d, lambda y: y == P2)):
+            # a branch on the level that can skip a recursive call
+            cut = {s_['block'] for s_ in wsites_ if s_['body'] is wb_}
+            t_ = wb_.term(sb_)
+            succ_ = wb_.succ(sb_)
+            reach_all = [set(wb_.reachable(x)) for x in succ_]
+            if any(not (cut & r) for r in reach_all) and any(cut & r for r in reach_all):
+                guards.append((sb_, strip_sites(dt_)))
+        if guards:
+            ctx.fail(inst_, ctx.site(wb_, guards[0][0]), 'the descent of %s depends on a test of the level (%s): below that depth elements are not visited' % (wb_.name, fmt(guards[0][1])[:120]),
+                     key=inst_ + '|levelguard')
+        else:
+            ctx.ok(inst_, ctx.site(wb_), '%s: no test of the level parameter can skip a recursive call (the descent is unbounded in depth)' % wb_.name)
     # ---- C15.2/ctx: level and parent handed to each child of the tree walk, per valuation of "self is a node" (a node is not
     # visited: its subject keeps the node's level and incoming parent, its assertions sit one level below the subject under the
     # context returned for the subject; every other element is visited and its children get level+1 and the visitor's result)
@@ -392,6 +409,7 @@ def check(ctx):
             ctx.ok('C15.5', ctx.site(awp), 'lookup keeps exactly the assertions a with as_predicate(subject(a)) = Some(p) and digest(p) == digest(Envelope::new(predicate)); non-assertions are dropped (4 valuations)')
         else:
             ctx.fail('C15.5', ctx.site(awp), 'predicate lookup filter has an unexpected form: %s' % why, key='C15.5|filter')
+    CUR_N = [None]
     def single(name, none_kind):
         b = F.method1('Envelope', name)
         if b is None:
@@ -442,6 +460,7 @@ def check(ctx):
             for v_ in Vs:
                 env[('len', v_)] = n
             outs = []
+            CUR_N[0] = n
             # the values returned under this valuation, built from the definitions on its paths only
             for bi, si, t in ret_values_under(b, tb_, env):
                 outs.append(classify(strip_sites(detry(t))))
@@ -482,6 +501,8 @@ def check(ctx):
                     return 'first'
                 if isinstance(x, tuple) and x and x[0] == 'call' and call_name(x) in ('first', 'next'):
                     return 'first'
+                if isinstance(x, tuple) and x and x[0] == 'elem' and CUR_N[0] == 1 and m_call(strip_sites(detry(elem_source(x[1]))), name='assertions_with_predicate') is not None:
+                    return 'first'      # an element of a one-element collection is its first (and only) element
             return 'other:' + fmt(inner)
         return 'other:' + fmt(t)
     single('assertion_with_predicate', 'Err:NonexistentPredicate')
